@@ -1,49 +1,72 @@
 #!/venv/bin/python
-"""Copy confirmed seeded mutants from the staging area into /verif/seeded/<PROP>-mN/ and write seeded/INDEX.md.
-A mutant is confirmed when, in a scratch worktree of /repo HEAD: its demo passes on the clean tree, the patch
-applies, the repository's 453-test baseline is unchanged, and its demo fails with the patch."""
-import json, os, shutil, glob, subprocess
-STAGE, RES, OUT = "/var/tmp/mutants", "/var/tmp/seedres", "/verif/seeded"
-os.makedirs(OUT, exist_ok=True)
-head = subprocess.run(["git", "-C", "/repo", "rev-parse", "--short", "HEAD"], capture_output=True, text=True).stdout.strip()
-rows = []
-for rf in sorted(glob.glob(f"{RES}/C*-m*.json")):
-    name = os.path.basename(rf)[:-5]
-    prop, m = name.split("-")
-    try:
-        r = json.load(open(rf))
-    except Exception:
-        continue
-    src = f"{STAGE}/{prop}/{m}"
-    ok = r.get("demo_clean") == 0 and r.get("applies") and r.get("baseline_ok") and r.get("demo_mutant") not in (0, None)
-    chk = r.get("checks", {}).get(prop, {})
-    keys = []
-    for ln in chk.get("lines", []):
-        if ln.startswith("VIOLATION") and "[" in ln:
-            keys.append(ln.split("[", 1)[1].split("]", 1)[0])
-    try:
-        meta = json.load(open(f"{src}/meta.json"))
-    except Exception:
-        meta = {}
-    status = "caught" if chk.get("exit") == 1 else ("MISSED" if chk.get("exit") == 0 else f"exit {chk.get('exit')}")
-    if ok:
-        dst = f"{OUT}/{prop}-{m}"
-        os.makedirs(dst, exist_ok=True)
-        for fn in ("patch.diff", "demo.py"):
-            if os.path.exists(f"{src}/{fn}"):
-                shutil.copy(f"{src}/{fn}", f"{dst}/{fn}")
-        meta.update({"property": prop, "origin": "independent sub-agent given only the property text and a scratch worktree",
-                     "confirmed": {"against_repo_head": head, "demo_on_clean_tree_exit": r.get("demo_clean"), "patch_applies": True,
-                                   "baseline_453_unchanged": True, "demo_with_patch_exit": r.get("demo_mutant"),
-                                   "how": "tools/try_mutant.py (scratch worktree of /repo HEAD; git apply; tools/baseline.sh; demo.py; ./check with FVMON_REPO)"},
-                     "check_result": {"tier": r.get("tier"), "exit": chk.get("exit"), "violation_keys": keys, "summary": chk.get("summary", "")}})
-        json.dump(meta, open(f"{dst}/meta.json", "w"), indent=1)
-    rows.append((prop, m, "confirmed" if ok else f"NOT CONFIRMED ({'does not apply' if not r.get('applies') else 'see result'})", status,
-                 ", ".join(keys[:3]), (meta.get("summary") or "")[:110], (meta.get("needs") or "")[:110]))
-with open(f"{OUT}/INDEX.md", "w") as fh:
-    fh.write("# Seeded property-breaking changes\n\nEach directory holds patch.diff, demo.py (passes on the clean tree, fails with the patch) and meta.json.\n"
-             "All keep the repository's 453-test baseline passing.  `status` is the result of the property's quick check on the patched tree.\n\n")
-    fh.write("| property | mutant | verification | check | first violation keys | change | needs |\n|---|---|---|---|---|---|---|\n")
-    for r in rows:
-        fh.write("| " + " | ".join(str(x).replace("|", "/") for x in r) + " |\n")
-print(f"{len(rows)} mutants indexed; {sum(1 for r in rows if r[2]=='confirmed')} confirmed; missed: {[r[0]+'-'+r[1] for r in rows if r[3]=='MISSED']}")
+"""Copy confirmed seeded mutants from the staging areas into /verif/seeded/<PROP>-[r2]mN/ and write seeded/INDEX.md.
+
+A mutant is confirmed when, in a scratch worktree of /repo HEAD (tools/try_mutant.py): its demo passes on the
+clean tree, the patch applies, the repository's 453-test baseline is unchanged, and its demo fails with the patch."""
+import glob
+import json
+import os
+import shutil
+import subprocess
+
+OUT = "/verif/seeded"
+ROUNDS = [("/var/tmp/mutants", "/var/tmp/seedres", ""), ("/var/tmp/mutants2", "/var/tmp/seedres2", "r2")]
+
+
+def main():
+    os.makedirs(OUT, exist_ok=True)
+    head = subprocess.run(["git", "-C", "/repo", "rev-parse", "--short", "HEAD"], capture_output=True, text=True).stdout.strip()
+    rows = []
+    for stage, res, tag in ROUNDS:
+        for rf in sorted(glob.glob(f"{res}/C*-m*.json")):
+            name = os.path.basename(rf)[:-5]
+            prop, m = name.split("-")
+            try:
+                r = json.load(open(rf))
+            except Exception:
+                continue
+            src = f"{stage}/{prop}/{m}"
+            ok = r.get("demo_clean") == 0 and r.get("applies") and r.get("baseline_ok") and r.get("demo_mutant") not in (0, None)
+            chk = r.get("checks", {}).get(prop, {})
+            keys = []
+            for ln in chk.get("lines", []):
+                if ln.startswith("VIOLATION") and "[" in ln:
+                    keys.append(ln.split("[", 1)[1].split("]", 1)[0])
+            try:
+                meta = json.load(open(f"{src}/meta.json"))
+            except Exception:
+                meta = {}
+            status = "caught" if chk.get("exit") == 1 else ("MISSED" if chk.get("exit") == 0 else f"exit {chk.get('exit')}")
+            label = (tag + "-" if tag else "") + m
+            if ok:
+                dst = f"{OUT}/{prop}-{label}"
+                os.makedirs(dst, exist_ok=True)
+                for fn in ("patch.diff", "demo.py"):
+                    if os.path.exists(f"{src}/{fn}"):
+                        shutil.copy(f"{src}/{fn}", f"{dst}/{fn}")
+                meta.update({
+                    "property": prop,
+                    "origin": "independent sub-agent given only the property text and a scratch worktree"
+                              + (" (second round, on the repaired tree)" if tag else ""),
+                    "confirmed": {"against_repo_head": head, "demo_on_clean_tree_exit": r.get("demo_clean"), "patch_applies": True,
+                                  "baseline_453_unchanged": True, "demo_with_patch_exit": r.get("demo_mutant"),
+                                  "how": "tools/try_mutant.py (scratch worktree of /repo HEAD; git apply; tools/baseline.sh; demo.py; "
+                                         "./check with FVMON_REPO pointing at the scratch tree)"},
+                    "check_result": {"tier": r.get("tier"), "exit": chk.get("exit"), "violation_keys": keys,
+                                     "summary": chk.get("summary", "")}})
+                json.dump(meta, open(f"{dst}/meta.json", "w"), indent=1)
+            why = "confirmed" if ok else ("NOT CONFIRMED (patch does not apply to HEAD)" if not r.get("applies") else "NOT CONFIRMED")
+            rows.append((prop, label, why, status, ", ".join(keys[:3]), (meta.get("summary") or "")[:110], (meta.get("needs") or "")[:110]))
+    with open(f"{OUT}/INDEX.md", "w") as fh:
+        fh.write("# Seeded property-breaking changes\n\nEach directory holds patch.diff, demo.py (passes on the clean tree, fails with the "
+                 "patch) and meta.json.\nAll keep the repository's 453-test baseline passing.  `check` is the result of the property's "
+                 "quick check on the patched tree\n(r2 = second round, written after the first-round repairs).\n\n")
+        fh.write("| property | mutant | verification | check | first violation keys | change | needs |\n|---|---|---|---|---|---|---|\n")
+        for r in rows:
+            fh.write("| " + " | ".join(str(x).replace("|", "/").replace("\n", " ") for x in r) + " |\n")
+    print(f"{len(rows)} mutants indexed; {sum(1 for r in rows if r[2] == 'confirmed')} confirmed; "
+          f"not caught: {[r[0] + '-' + r[1] for r in rows if r[3] != 'caught']}")
+
+
+if __name__ == "__main__":
+    main()
